@@ -13,9 +13,11 @@
      - every device memory object that holds a live allocation is still there, with the same memory type (and size,
        for a dedicated allocation), and no other object holds one (mems_used_same); every OTHER device memory object,
        before and after, is the memory of an EMPTY block of a linked block list.
-   What may differ, and does: EMPTY blocks.  A request that created a new block and then failed in vkMapMemory
-   (AllocationCreateMapped + fault) leaves that new empty block in its list; the unwinding of a failed multi-page
-   request frees pages, and a block that becomes empty while another empty block exists is released.  With them
+   What may differ: EMPTY blocks, in one case (by reading; the theorem does not depend on it).  AllocateMemory gives a
+   block created for the failing request back (allocPage), Allocate unwinds with free(keepBlocks) and then
+   releaseEmptyBlocksCreatedSince; but CreateBuffer / CreateImage whose bind fails after the allocation succeeded call
+   the ordinary Allocation.free(), whose retention policy may keep a freshly created block as the empty spare (or
+   release another empty block).  With the empty blocks
    differ the block counters of the budget (blockCount, blockBytes: they equal the device truth in both states,
    budget_equals_truth), the hysteresis counters of the blocks, the budget-fetch bookkeeping and the driver log. *)
 From Coq Require Import ZArith NArith List Bool Lia.
